@@ -116,6 +116,27 @@ func runC10(c *fw.Case) (o fw.Outcome) {
 		ue.ULCount.Set(uint16(r.Intn(1<<16)), uint8(r.Intn(256)))
 	}
 	profile := (c.Idx / 6) % 3
+	// aimed keystream (one ciphering history in four): K_NASenc is searched so that at one downlink COUNT the keystream
+	// makes the CIPHERTEXT begin like a plain or already-unprotected message (7e 00, 7e 02, 2e 01 ...). What a message
+	// looks like after ciphering is chance; a receiver that inspects the ciphertext to decide whether to decipher is
+	// wrong for 1 message in 65536, and no random history shows that.
+	aimCount, aimed := uint32(0), false
+	if cAlg != 0 && (c.Idx/6)%4 == 1 {
+		aimCount = uint32(2 + r.Intn(40))
+		target := pick(r, [2]byte{0x7e, 0x00}, [2]byte{0x7e, 0x00}, [2]byte{0x7e, 0x02}, [2]byte{0x7e, 0x01}, [2]byte{0x2e, 0x01})
+		want := [2]byte{0x7e ^ target[0], 0x00 ^ target[1]}
+		key := make([]byte, 16)
+		for try := 0; try < 1<<20; try++ {
+			r.Read(key)
+			ks, _ := sec.NEA(cAlg, key, aimCount, 1, 1, []byte{0, 0})
+			if ks[0] == want[0] && ks[1] == want[1] {
+				copy(ue.KnasEnc[:], key)
+				aimed = true
+				o.Tag(fmt.Sprintf("aimed-ciphertext-prefix=%02x%02x", target[0], target[1]))
+				break
+			}
+		}
+	}
 	o.Tag(fmt.Sprintf("NIA%d/NEA%d", iAlg, cAlg), fmt.Sprintf("reset-profile=%d", profile))
 	hist := fw.Hash(ue.KnasEnc[:], ue.KnasInt[:], []byte{cAlg, iAlg})
 	var trace []string
@@ -172,6 +193,10 @@ func runC10(c *fw.Case) (o fw.Outcome) {
 		}
 		if s == 0 {
 			sht = 3 // the context is taken into use by a Security Mode Command-like message
+		}
+		if aimed && amfCount == aimCount && s > 0 {
+			sht = 2 // the aimed COUNT carries a ciphered message
+			o.Count("aimed_ciphertexts_sent", 1)
 		}
 		// what a decode of the plain bytes gives (reference for equality, keeps plain-codec issues out)
 		want := new(nas.Message)
@@ -259,6 +284,9 @@ func runC10(c *fw.Case) (o fw.Outcome) {
 			}
 			if (amfCount&0xff)+skip > 0xff {
 				o.Count("sqn_wraps", 1)
+			}
+			if aimed && amfCount < aimCount && amfCount+skip > aimCount {
+				skip = aimCount - amfCount // do not jump over the aimed COUNT
 			}
 			amfCount = (amfCount + skip) & 0xffffff
 		}
